@@ -10,7 +10,7 @@ Model driver for C20 (`drv_caller`).
        | ok infeasible <index> blocked | ok infeasible <index> mismatch <gate the thread stands at|->
   caller.enum <guess> <known|-> <queries>
       -> ok <n> <schedule>|<schedule>|...     (every gate schedule until the main thread is done)
-  caller.shape -> ok bg=<stmt,..> pub=<stmt,..> query=<stmt,..>   (statement order the model executes)
+  caller.shape -> ok bg=<stmt,..> pub=<stmt,..> query=<stmt,..> startup=<phase,..>   (statement order the model executes)
 Values: `pending` or `v<n>`.
 -/
 
@@ -67,7 +67,7 @@ def stepCaller (line : String) : String :=
     | none => "ERR"
   | ["caller.shape"] =>
     "ok bg=" ++ ",".intercalate bgShape ++ " pub=" ++ ",".intercalate pubShape
-      ++ " query=" ++ ",".intercalate queryShape
+      ++ " query=" ++ ",".intercalate queryShape ++ " startup=" ++ ",".intercalate startupShape
   | _ => "ERR"
 
 def main : IO Unit := serve stepCaller
